@@ -240,4 +240,32 @@ longest prefix of `1..N` that all deliver data, or none if a build of the run fa
 def recordedInTheEnd {κ : Type} (H : Harness) (c : RunC κ) (i : Nat) : Nat :=
   if c.builds.all H.buildOk then prefLen (delivers H i) c.invocations else 0
 
+/-- the data points of one invocation as `_eval_output` numbers them (from `j + 1`) -/
+def numberDPs (inv : Nat) : Nat → List (List Meas) → List DP
+  | _, [] => []
+  | j, ms :: rest => { inv := inv, it := j + 1, ms := ms } :: numberDPs inv (j + 1) rest
+
+/-- the measurement rows (run, invocation, iteration, measurement) of invocation `inv` of run `i` -/
+def rowsOf {κ : Type} (cfg : List (RunC κ)) (H : Harness) (i inv : Nat) : List (κ × Nat × Nat × Meas) :=
+  match cfg[i]?, H.out i inv with
+  | some c, some dps => (numberDPs inv 0 dps).flatMap (dpProj c.key)
+  | _, _ => []
+
+/-- the rows of invocations `1..m` of run `i`, in order -/
+def expectedRows {κ : Type} (cfg : List (RunC κ)) (H : Harness) (i m : Nat) : List (κ × Nat × Nat × Meas) :=
+  (List.range m).flatMap (fun t => rowsOf cfg H i (t + 1))
+
+/-- the measurement rows of a file -/
+def measRows {κ β : Type} (c : List (Line κ β)) : List (κ × Nat × Nat × Meas) := c.filterMap measProj
+
+/-- configurations considered: distinct run identities, every run recorded in at least one of the
+`nfiles` data files, each file listed once -/
+structure CfgOK {κ : Type} (cfg : List (RunC κ)) (nfiles : Nat) : Prop where
+  keys : (cfg.map (·.key)).Nodup
+  files : ∀ c ∈ cfg, c.files ≠ [] ∧ c.files.Nodup ∧ ∀ f ∈ c.files, f < nfiles
+
+/-- every data point a harness delivers has a `total` whose value `float()` can read (what every adapter builds) -/
+def HarnessOK (H : Harness) : Prop :=
+  ∀ i t dps, H.out i t = some dps → ∀ ms ∈ dps, ∃ m ∈ ms, m.crit = "total" ∧ m.value.loads = true
+
 end RB.Session
